@@ -65,7 +65,8 @@ func piecesGen(args []string) {
 		}
 		// partition into consecutive pieces
 		var pieces []N
-		var known []string
+		var known, hoisted []string
+		uniq := 0
 		mode := r.Intn(3)
 		j := 0
 		for j < len(prog) {
@@ -81,7 +82,7 @@ func piecesGen(args []string) {
 			sts := prog[j : j+k]
 			// inserted inputs that must be refused or fail
 			if r.Intn(3) == 0 {
-				pieces = append(pieces, rejectedPiece(r, known))
+				pieces = append(pieces, rejectedPieces(r, known, hoisted, &uniq)...)
 			}
 			if r.Intn(5) == 0 {
 				pieces = append(pieces, failingPiece(r))
@@ -89,10 +90,13 @@ func piecesGen(args []string) {
 			pieces = append(pieces, N{"kind": "code", "ast": sts, "hoist": hoistNames(sts), "declares": len(declaredNames(sts)) > 0,
 				"src": ast.Render(sts)})
 			known = append(known, declaredNames(sts)...)
+			for _, h := range hoistNames(sts) {
+				hoisted = append(hoisted, h.(string))
+			}
 			j += k
 		}
 		if r.Intn(3) == 0 {
-			pieces = append(pieces, rejectedPiece(r, known))
+			pieces = append(pieces, rejectedPieces(r, known, hoisted, &uniq)...)
 			pieces = append(pieces, N{"kind": "code", "ast": []any{ast.ExprStmt(ast.Int(i % 7))}, "hoist": []any{}, "declares": false, "src": fmt.Sprint(i % 7)})
 		}
 		globals := []any{}
@@ -147,11 +151,12 @@ func piecesGen(args []string) {
 			sts = append(sts, pool())
 		}
 		var pieces []N
+		uniq2 := 100
 		for _, st := range sts {
 			one := []any{st}
 			pieces = append(pieces, N{"kind": "code", "ast": one, "hoist": hoistNames(one), "declares": len(declaredNames(one)) > 0, "src": ast.Render(one)})
 			if r.Intn(6) == 0 {
-				pieces = append(pieces, rejectedPiece(r, []string{"x"}))
+				pieces = append(pieces, rejectedPieces(r, []string{"x"}, nil, &uniq2)...)
 			}
 		}
 		rows = append(rows, N{"id": len(rows), "pieces": pieces, "globals": []any{"x", "y"}, "forward": false})
@@ -190,6 +195,54 @@ func rejectedPiece(r *rand.Rand, known []string) N {
 		srcs = append(srcs, "print(\"rejected\")\n"+k+" := 0", "print(\"rejected\")\n"+k+" := 0")
 	}
 	return N{"kind": "rejected", "src": srcs[r.Intn(len(srcs))]}
+}
+
+// rejectedPieces: a refused input, sometimes followed by inputs that probe what it left behind: a piece that
+// mentions a name the refused input had declared (must be refused too: the name does not exist) and a piece that
+// declares the name properly (must be accepted).
+func rejectedPieces(r *rand.Rand, known, hoisted []string, uniq *int) []N {
+	*uniq++
+	fn, vn := fmt.Sprintf("fq%d", *uniq), fmt.Sprintf("qv%d", *uniq)
+	rej := func(src string) N { return N{"kind": "rejected", "src": src} }
+	code := func(sts ...any) N {
+		return N{"kind": "code", "ast": sts, "hoist": hoistNames(sts), "declares": true, "src": ast.Render(sts)}
+	}
+	fdecl := func(name string, v int) N {
+		return N{"k": "funcdecl", "hoisted": true, "f": N{"k": "func", "name": name, "params": []any{}, "body": []any{N{"k": "return", "has": true, "e": ast.Int(v)}}}}
+	}
+	var first N
+	var mention string
+	var again N
+	switch k := r.Intn(12); {
+	case k == 0:
+		// the compiler refuses the input after its function declarations were collected
+		first = rej("func " + fn + "(a) {\nreturn a * 2\n}\nprint(\"rejected\")\n" + fn + "(undefined_name_q)")
+		mention, again = fn+"()", code(fdecl(fn, 7), ast.ExprStmt(ast.Call(ast.Id(fn))))
+	case k == 1:
+		first = rej("func " + fn + "() {\nreturn undefined_name_q\n}")
+		mention, again = fn, code(fdecl(fn, 8), ast.ExprStmt(ast.Call(ast.Id(fn))))
+	case k == 2 && len(hoisted) > 0:
+		// refused while the function declarations are collected (second declaration of a known function)
+		h := hoisted[r.Intn(len(hoisted))]
+		first = rej("func " + fn + "() {\nreturn 1\n}\nfunc " + h + "() {\nreturn 2\n}")
+		mention, again = fn+"()", code(fdecl(fn, 9), ast.ExprStmt(ast.Call(ast.Id(fn))))
+	case k == 3:
+		first = rej(vn + " := 5\nprint(\"rejected\", " + vn + ")\nzz" + vn + " := undefined_name_q")
+		mention, again = vn, code(ast.Var(vn, ast.Int(6)), ast.ExprStmt(ast.Id(vn)))
+	case k == 4:
+		first = rej("func " + fn + "() {\nreturn 1\n}\n" + vn + " := := 1")
+		mention, again = fn+"()", code(fdecl(fn, 5), ast.ExprStmt(ast.Call(ast.Id(fn))))
+	default:
+		return []N{rejectedPiece(r, known)}
+	}
+	out := []N{first}
+	if r.Intn(2) == 0 {
+		out = append(out, rej("print(\"rejected\")\n"+mention))
+	}
+	if r.Intn(3) != 0 {
+		out = append(out, again)
+	}
+	return out
 }
 
 func failingPiece(r *rand.Rand) N {
